@@ -632,6 +632,56 @@ macro_rules! weighted_ctor {
                                 _ => tt.violation("panic:get".into(), &args, format!("get({i}) panicked")),
                             }
                         }
+                        // push / update on the built tree: result class, and the accessors afterwards must report
+                        // the weights in force (unchanged when the call returned Err)
+                        if n <= 4 {
+                            let tot: u128 = v.iter().map(|w| *w as u128).sum();
+                            for &w in &alpha {
+                                for target in 0..=n {
+                                    // target == n: push(w); otherwise update(target, w)
+                                    let mut t2 = d.clone();
+                                    let mut model = v.clone();
+                                    let old = if target < n { model[target] as u128 } else { 0 };
+                                    let mut allowed = vec![];
+                                    if w < zero {
+                                        allowed.push("InvalidWeight");
+                                    } else if (tot - old).checked_add(w as u128).is_none_or(|t| t > <$W>::MAX as u128) {
+                                        allowed.push("Overflow");
+                                    }
+                                    let opname = if target == n { "WeightedTreeIndex::push" } else { "WeightedTreeIndex::update" };
+                                    let a2 = format!("{args} then {}({}{w:?})", if target == n { "push" } else { "update" }, if target == n { String::new() } else { format!("{target}, ") });
+                                    let res = guarded(|| if target == n { t2.push(w) } else { t2.update(target, w) });
+                                    let mut tp = Tally::new(opname, profile);
+                                    let ok = tp.judge(&a2, res, Expect { spec: true, allowed }).is_some();
+                                    tt.calls += 1;
+                                    for (k, c) in tp.viol.iter() {
+                                        *tt.viol.entry(format!("{opname}:{k}")).or_insert(0) += c;
+                                    }
+                                    if ok {
+                                        if target == n { model.push(w) } else { model[target] = w }
+                                    }
+                                    if t2.len() != model.len() {
+                                        tt.violation(format!("accessor:len after {opname}"), &a2, format!("len {} vs {}", t2.len(), model.len()));
+                                        continue;
+                                    }
+                                    for (i, mw) in model.iter().enumerate() {
+                                        match guarded(|| t2.get(i)) {
+                                            Caught::Ok(x) => {
+                                                tt.accessor_checks += 1;
+                                                if x != *mw {
+                                                    tt.violation(format!("accessor:get after {opname}"), &a2, format!("get({i}) = {x:?}, weights in force {model:?}"));
+                                                    break;
+                                                }
+                                            }
+                                            _ => {
+                                                tt.violation(format!("panic:get after {opname}"), &a2, format!("get({i}) panicked"));
+                                                break;
+                                            }
+                                        }
+                                    }
+                                }
+                            }
+                        }
                     }
                 }
             }
